@@ -176,6 +176,12 @@ ASendPrio(s) ==
   /\ nSend < MaxSend /\ cont.s = 0 /\ nSend' = nSend + 1
   /\ UNCHANGED <<rel, iw, mf, cont, ctl, ledg, aled, sentLog, dlvLog, nCtl, hp, conn>>
 
+\* a frame of a type the relay does not know (an extension: ALTSVC, ORIGIN, ...) is ignored, RFC 7540 4.1 - what follows is
+\* relayed as before
+ASendUnknown ==
+  /\ nSend < MaxSend /\ cont.s = 0 /\ nSend' = nSend + 1
+  /\ UNCHANGED <<rel, iw, mf, cont, ctl, ledg, aled, sentLog, dlvLog, nCtl, hp, conn>>
+
 \* connection-level frames are written to the receiver directly, outside the per-stream queues (relay.go:284-290)
 ASendPing(d) ==
   /\ nSend < MaxSend /\ cont.s = 0 /\ nSend' = nSend + 1 /\ d \notin pings /\ goneAway = "no"
@@ -267,7 +273,7 @@ Next ==
   \/ \E s \in Streams, p \in Promised : ASendPush(s, p)
   \/ \E s \in Streams : ASendPrio(s)
   \/ \E d \in Pings : ASendPing(d) \/ BRecvPing(d)
-  \/ ASendGoAway \/ BRecvGoAway \/ ASendClose
+  \/ ASendGoAway \/ BRecvGoAway \/ ASendClose \/ ASendUnknown
   \/ WriterSend
   \/ \E s \in Streams \cup {0}, i \in Incs : BCtl([t |-> "WU", s |-> s, v |-> i])
   \/ \E v \in InitWins : BCtl([t |-> "SI", s |-> 0, v |-> v])
